@@ -207,7 +207,6 @@ def tie_batcher(ctx):
                "" if table["in_fragment_wrong"] == 0 else f"{table}")
     # search on the real code: the batcher level witness
     if wrong:
-        (sx, dx, sy, dy), got, want = wrong[0]
         (sx, dx, sy, dy), got, want = next((w for w in wrong if w[0] == ((3, 3), 0, (3, 3), None)), wrong[0])
         ctx.violate("batcher:new-axes-appended-at-end",
                     f"broadcast_batcher_compat is not vmap for an elementwise numpy-broadcasting primitive: operands {sx} (bdim {dx}) and {sy} "
